@@ -49,7 +49,7 @@ def run(ctx):
                     continue
                 out.write(open(part).read())
             # real generated keys (uniform masks) under layouts up to Bgbit = 16 and k = 2
-            for (n, k, l, bg, t, bb) in [(8, 1, 2, 16, 8, 2), (6, 2, 2, 15, 5, 3), (10, 1, 3, 7, 8, 2), (5, 1, 1, 16, 15, 1)] if kind == "optim" else [(4, 1, 3, 7, 8, 2)]:      # (debug nayuki builds abort in their own assertion for Bgbit = 16: finding D6, recorded under C10)
+            for (n, k, l, bg, t, bb) in [(8, 1, 2, 16, 8, 2), (6, 2, 2, 15, 5, 3), (10, 1, 3, 7, 8, 2), (5, 1, 4, 8, 15, 1)] if kind == "optim" else [(4, 1, 3, 7, 8, 2)]:      # (debug nayuki builds abort in their own assertion for Bgbit = 16: finding D6, recorded under C10)
                 part = f + ".part"
                 with open(part, "w") as po:
                     rc, _, err = sh([exe, "real", "--n", str(n), "--k", str(k), "--l", str(l), "--bg", str(bg), "--t", str(t), "--bb", str(bb), "--cases", "96" if kind == "optim" else "24", "--seed", str(ctx.seed + n)], stdout=po, timeout=3000)
